@@ -286,11 +286,52 @@ pub fn run(args: &Args) {
     let mut rng = Rng::new(args.seed ^ 0xC19);
     out.comment(&format!("C19 compat seed={} thorough={}", args.seed, args.thorough));
     let n = if args.thorough { 400 } else { 24 };
+    let debug_case: Option<usize> = std::env::var("VERIF_C19_DEBUG_CASE").ok().and_then(|x| x.parse().ok());
+    // corpus first: programs of past findings, identified by (seed, case index) of the run that found them
+    let mut plan: Vec<(Vec<Vec<Op>>, bool, bool)> = vec![];
+    for (seed, case) in [(3u64, 10usize)] {
+        let mut rg = Rng::new(seed ^ 0xC19);
+        let mut txns = vec![];
+        for _ in 0..=case {
+            let mut r = rg.fork();
+            txns = gen_txns(&mut r, false);
+        }
+        plan.push((txns, case % 2 == 0, case % 3 == 2));
+    }
     for case in 0..n {
         let mut r = rng.fork();
         let txns = gen_txns(&mut r, args.thorough);
-        let new_writes_first = case % 2 == 0;
-        let crash = case % 3 == 2;
+        plan.push((txns, case % 2 == 0, case % 3 == 2));
+    }
+    for (case, (txns, new_writes_first, crash)) in plan.into_iter().enumerate() {
+        if debug_case == Some(case + 1) {
+            // diagnosis of an integrity verdict: every writer / checker combination on the same program
+            eprintln!("DEBUG txns: {:?}", txns.iter().map(|t| (t.len(), t.iter().filter(|o| matches!(o, Op::Savepoint)).count())).collect::<Vec<_>>());
+            for writer_new in [true, false] {
+                let bytes = Arc::new(Mutex::new(vec![]));
+                if writer_new {
+                    let db = cur::open(&bytes).unwrap();
+                    cur::run(&db, &txns, &Contents::default()).unwrap();
+                    drop(db);
+                } else {
+                    let db = old::open(&bytes).unwrap();
+                    old::run(&db, &txns, &Contents::default()).unwrap();
+                    drop(db);
+                }
+                let image = bytes.lock().unwrap().clone();
+                for checker_new in [true, false] {
+                    let b2 = Arc::new(Mutex::new(image.clone()));
+                    let verdict = if checker_new {
+                        let mut db = cur::open(&b2).unwrap();
+                        cur::check_integrity(&mut db)
+                    } else {
+                        let mut db = old::open(&b2).unwrap();
+                        old::check_integrity(&mut db)
+                    };
+                    eprintln!("DEBUG case {} writer={} checker={} len={} verdict={verdict:?} len-after={}", case + 1, if writer_new { "this" } else { "3.0.0" }, if checker_new { "this" } else { "3.0.0" }, image.len(), b2.lock().unwrap().len());
+                }
+            }
+        }
         out.begin_case(&format!("compat writer={} crash={} txns={}", if new_writes_first { "this" } else { "3.0.0" }, crash, txns.len()));
         let res = catch_unwind(AssertUnwindSafe(|| -> Result<(), String> {
             let bytes = Arc::new(Mutex::new(vec![]));
@@ -326,9 +367,18 @@ pub fn run(args: &Args) {
             }
             // phase 2: the other version opens the file
             let bytes2 = Arc::new(Mutex::new(image));
+            let image_len = bytes2.lock().unwrap().len();
+            let mut old_open_grew_file = false;
+            let mut old_second_check = true;
             let (got, integrity) = if new_writes_first {
                 let mut db = old::open(&bytes2).map_err(|e| format!("redb 3.0.0 cannot open a file written by this code: {e}"))?;
+                // redb 3.0.0 allocates while opening; on a file that this version's closing trim
+                // left without a single free page it has to grow the file to do so
+                old_open_grew_file = bytes2.lock().unwrap().len() > image_len;
                 let i = old::check_integrity(&mut db)?;
+                if !i {
+                    old_second_check = old::check_integrity(&mut db)?;
+                }
                 (old::read(&db)?, i)
             } else {
                 let mut db = cur::open(&bytes2).map_err(|e| format!("this code cannot open a file written by redb 3.0.0: {e}"))?;
@@ -345,7 +395,12 @@ pub fn run(args: &Args) {
                 if got != expect {
                     return Err(format!("{reader} shows {} but the writer committed {}", got.digest(), expect.digest()));
                 }
-                if !integrity {
+                if !integrity && old_open_grew_file && old_second_check {
+                    // a specific, diagnosed situation (known_findings.json): contents identical, the
+                    // old version's own open grew a completely full file, its stored layout then lags
+                    // the file and its check reports a repair (the defect fixed here in 85429cb)
+                    out.oracle_fail(format!("compat-3.0.0-repairs-full-file|redb 3.0.0: check_integrity() returned Ok(false) on a cleanly closed file of {image_len} bytes written by this code that has no free page (3.0.0's open grew it); contents identical, second check Ok(true)"));
+                } else if !integrity {
                     return Err(format!("{reader}: check_integrity() returned Ok(false) on a cleanly closed file of the other version"));
                 }
             }
@@ -378,7 +433,7 @@ pub fn run(args: &Args) {
         match res {
             Ok(Ok(())) => out.end_case(true),
             Ok(Err(e)) => {
-                out.oracle_fail(format!("compat|{e}"));
+                out.oracle_fail(if e.starts_with("compat-") { e } else { format!("compat|{e}") });
                 out.end_case(false);
             }
             Err(p) => {
